@@ -58,6 +58,13 @@ pub fn format_expressions_multi(ctx: &Context, expressions: &Punctuated<Expressi
 }
 """
 
+TRY_STUB = Fn(GEN, "try_format_punctuated", mode="stub", proved_in="lists", sig_edits=[Hole("T: Node\n        + GetLeadingTrivia", "T: VNode\n        + GetLeadingTrivia", kind="proxy", why="proxy trait for the sealed full_moon::node::Node"),
+                                                     Hole("+ HasInlineComments\n        + std::fmt::Display,", "+ HasInlineComments,", kind="proxy", why="the Display bound is only used for a width")], contract="""
+    requires forall|i: int, s: Shape| 0 <= i < ppairs(*old).len() ==> #[trigger] value_formatter.requires((ctx, &pair_value(ppairs(*old)[i]), s)),
+    ensures ppairs(r).len() == ppairs(*old).len(),
+            forall|i: int| 0 <= i < ppairs(*old).len() ==> by_item_formatter_modulo_trivia(value_formatter, ctx, pair_value(#[trigger] ppairs(*old)[i]), pair_value(ppairs(r)[i])),
+""")
+
 GENERIC_STUBS = [
     Fn(GEN, "format_punctuated", mode="stub", proved_in="lists", sig_edits=[Hole("T: std::fmt::Display,", "", kind="proxy", why="the Display bound is only used for a width")], contract="""
     requires forall|i: int, s: Shape| 0 <= i < ppairs(*old).len() ==> #[trigger] value_formatter.requires((ctx, &pair_value(ppairs(*old)[i]), s)),
@@ -149,10 +156,101 @@ def items():
             Hole(".take_first_line(&strip_trailing_trivia(&hanging_equal_token_expr_list))", ".take_first_line(&hanging_equal_token_expr_list)", why="strip_trailing_trivia only affects the measured width"),
             Between('&& format!("{hanging_equal_token_expr_list}").lines().count() + 1', '< format!("{expr_list}").lines().count()', "&& hole_bool()", why="Display line counts of two candidates: chooses the layout only"),
         ]),
+        # ---- assignments ----
+        Raw("""
+pub trait HasInlineComments { fn has_inline_comments(&self) -> bool; }
+impl HasInlineComments for Var { #[verifier::external_body] fn has_inline_comments(&self) -> bool { unimplemented!() } }
+impl HasInlineComments for TokenReference { #[verifier::external_body] fn has_inline_comments(&self) -> bool { unimplemented!() } }
+""", module="formatters::trivia_util"),
+        TRY_STUB,
+        Raw(node_specs("Assignment", "n_asg", [("variables", "Punctuated<Var>", "ref"), ("equal_token", "TokenReference", "ref"), ("expressions", "Punctuated<Expression>", "ref")]) + """
+pub assume_specification [Assignment::new] (v: Punctuated<Var>, e: Punctuated<Expression>) -> (r: Assignment) ensures n_asg_variables(&r) == v, n_asg_expressions(&r) == e;
+pub open spec fn var_sig(p: Punctuated<Var>) -> Seq<int> { pvals(p).map_values(|v: Var| var_id(v)) }
+impl VNode for Var {
+    open spec fn key(&self) -> NodeKey { NodeKey::Other(other_key(*self)) }
+    open spec fn line_open(&self) -> bool { other_line_open(*self) }
+    #[verifier::external_body] fn start_position(&self) -> (r: Option<Position>) { unimplemented!() }
+    #[verifier::external_body] fn end_position(&self) -> (r: Option<Position>) { unimplemented!() }
+    #[verifier::external_body] fn leading_trivia_vec(&self) -> (r: Vec<&Token>) { unimplemented!() }
+}
+impl UpdateLeadingTrivia for Var {
+    open spec fn same_sem(&self, r: &Self) -> bool { var_id(*r) == var_id(*self) }
+    open spec fn lead_ok(&self, t: FormatTriviaType, r: &Self) -> bool { true }
+    open spec fn on_new_line(&self) -> bool { other_nl(*self) }
+    open spec fn rest_same(&self, r: &Self) -> bool { true }
+    #[verifier::external_body] fn update_leading_trivia(&self, leading_trivia: FormatTriviaType) -> (r: Self) { unimplemented!() }
+}
+impl UpdateTrailingTrivia for Var {
+    open spec fn same_sem_t(&self, r: &Self) -> bool { var_id(*r) == var_id(*self) }
+    open spec fn trail_ok(&self, t: FormatTriviaType, r: &Self) -> bool { true }
+    open spec fn not_open(&self) -> bool { other_closed(*self) }
+    #[verifier::external_body] fn update_trailing_trivia(&self, trailing_trivia: FormatTriviaType) -> (r: Self) { unimplemented!() }
+}
+impl GetLeadingTrivia for Var {
+    open spec fn leads_with_comment(&self) -> bool { other_lc(*self) }
+    #[verifier::external_body] fn leading_trivia(&self) -> Vec<Token> { unimplemented!() }
+    #[verifier::external_body] fn has_leading_comments(&self, search: CommentSearch) -> (r: bool) { unimplemented!() }
+    #[verifier::external_body] fn leading_comments(&self) -> Vec<Token> { unimplemented!() }
+}
+impl GetTrailingTrivia for Var {
+    open spec fn ends_open(&self) -> bool { !other_closed(*self) }
+    #[verifier::external_body] fn trailing_trivia(&self) -> Vec<Token> { unimplemented!() }
+    #[verifier::external_body] fn has_trailing_comments(&self, search: CommentSearch) -> (r: bool) { unimplemented!() }
+    #[verifier::external_body] fn trailing_comments(&self) -> Vec<Token> { unimplemented!() }
+}
+impl GetTrailingTrivia for Punctuated<Var> {
+    open spec fn ends_open(&self) -> bool { !other_closed(*self) }
+    #[verifier::external_body] fn trailing_trivia(&self) -> Vec<Token> { unimplemented!() }
+    #[verifier::external_body] fn has_trailing_comments(&self, search: CommentSearch) -> (r: bool) { unimplemented!() }
+    #[verifier::external_body] fn trailing_comments(&self) -> Vec<Token> { unimplemented!() }
+}
+// try_format_punctuated(ctx, variables, shape, format_var, Some(1)): the call of format_assignment_no_trivia, verified from the generic contract
+pub fn format_variables(ctx: &Context, variables: &Punctuated<Var>, shape: Shape) -> (r: Punctuated<Var>)
+    ensures ppairs(r).len() == ppairs(*variables).len(), var_sig(r) == var_sig(*variables)
+{
+    let r = try_format_punctuated(
+        ctx,
+        variables,
+        shape,
+        format_var,
+        Some(1),
+    );
+    proof { assert forall|i: int| 0 <= i < ppairs(r).len() implies var_id(pair_value(#[trigger] ppairs(r)[i])) == var_id(pair_value(ppairs(*variables)[i])) by { assert(by_item_formatter_modulo_trivia(format_var, ctx, pair_value(ppairs(*variables)[i]), pair_value(ppairs(r)[i]))); }
+            assert(var_sig(r) =~= var_sig(*variables)); }
+    r
+}
+""", module="formatters::assignment"),
+        Fn(EX, "format_var", mode="stub", contract="ensures var_id(r) == var_id(*var),", note="names through format_token_reference, prefix/suffix chains through format_var_expression (class C: leaf identity)"),
+        Fn(GEN, "format_symbol", mode="stub", proved_in="tok", contract="ensures tok_of(r) == tok_of(*wanted_symbol),"),
+        Fn(ASG, "format_assignment_no_trivia", contract="""
+    requires exprs_wf(n_asg_expressions(assignment)), ppairs(n_asg_expressions(assignment)).len() >= 1,
+    ensures var_sig(n_asg_variables(&r)) == var_sig(n_asg_variables(assignment)), //# C02.assignment_same
+            expr_sig(n_asg_expressions(&r)) == expr_sig(n_asg_expressions(assignment)), //# C02.assignment_same
+""", edits=[
+            Hole("""try_format_punctuated(
+        ctx,
+        assignment.variables(),
+        shape.with_infinite_width(),
+        format_var,
+        Some(1),
+    )""", "format_variables(ctx, assignment.variables(), shape.with_infinite_width())", kind="wrapper", why="generic list formatter with format_var: verified wrapper"),
+            Hole("try_format_punctuated(ctx, assignment.variables(), shape, format_var, Some(1))", "format_variables(ctx, assignment.variables(), shape)", kind="wrapper", why="generic list formatter with format_var: verified wrapper"),
+            Hole("""format_punctuated(
+        ctx,
+        assignment.expressions(),
+        shape.with_infinite_width(),
+        format_expression,
+    )""", "format_expressions_single(ctx, assignment.expressions(), shape.with_infinite_width())", kind="wrapper", why="generic list formatter with format_expression: verified wrapper"),
+            Hole("trivia_util::punctuated_inline_comments(assignment.expressions(), true)", "hole_bool()", why="iterator over the list looking for comments: chooses the layout only"),
+            Hole('const EQUAL_TOKEN_LEN: usize = "= ".len();', "let EQUAL_TOKEN_LEN: usize = hole_usize();", why="str::len in a const: a width"),
+            Between("+ (strip_leading_trivia(&var_list).to_string().len()\n            + 3", "+ strip_trailing_trivia(&expr_list).to_string().len());", "+ hole_usize();", why="Display widths of the two lists"),
+            Hole("let shape = shape + (strip_leading_trivia(&var_list).to_string().len() + 3);", "let shape = shape + hole_usize();", why="Display width of the variable list"),
+        ]),
     ]
     return its
 
 LABELS = {
+    "C02.assignment_same": dict(props=["C02"], text="format_assignment_no_trivia: the same variables and the same values, in order, whichever layout is chosen"),
     "C02.assignment_values_same": dict(props=["C02"], text="attempt_assignment_tactics: whichever layout tactic wins, the list has as many values as the input, value i is the input's value i modulo redundant parentheses, and the `=` token is the `=`"),
     "C02.assignment_rehang_loop": dict(props=["C02"], text="attempt_assignment_tactics, one value per line: every value pushed so far — kept as formatted, or hung again from the original expression — is the input's value in the same place"),
 }
